@@ -3373,7 +3373,21 @@ impl<Front: SocketHandler> ConnectionH2<Front> {
                 "IoSlice refs must be cleared before consume"
             );
             debug.push(DebugEvent::SocketIO(debug_site, global_stream_id, size));
+            // `Kawa::consume` may shift the storage buffer to reclaim the room in
+            // front of the data. It rebases the stores of `out` but not the
+            // slices held by `blocks`: it assumes every block was converted.
+            // The H2 converter leaves blocks behind (and pushes the unsent part
+            // of a chunk back) when the flow-control window runs out, so they
+            // must be rebased here, or they keep pointing `shifted` bytes past
+            // their data and later DATA frames carry the wrong octets.
+            let end_before_consume = kawa.storage.end;
             kawa.consume(size);
+            let shifted = end_before_consume - kawa.storage.end;
+            if shifted > 0 {
+                for block in kawa.blocks.iter_mut() {
+                    block.push_left(shifted as u32);
+                }
+            }
             position.count_bytes_out_counter(size);
             position.count_bytes_out(metrics, size);
             if let Some(counter) = bytes_written.as_deref_mut() {
